@@ -117,7 +117,7 @@ def generate(rng, tier):
         nrec = rng.choice([0, 1, 1, 2])
         recs = rng.randrange(1, 4)
         fl = ''.join(rng.choice('iii120') for _ in range(rng.choice([0, 1, 1, 2])))
-        nshut = rng.choice([0, 0, 1])
+        nshut = rng.choice([0, 0, 1, 1, 2])          # two callers: Shutdown requested from two threads at once
         xs = rng.choice(['s', 's', 'sf', 'sF', 'sS'])
         nth = 1 + nrec + len(fl) + nshut + 3      # a few ids for collect threads
         n = rng.randrange(10, 140)
@@ -178,7 +178,10 @@ def generate(rng, tier):
 
 
 def corpus():
-    return [Case('pmr 1 2 i 1 s ; t0 ; t0 ; t0 ; t1 ; t1 ; t2 ; t2 ; t2 ; t2 ; t2 ; t2 ; t2 ; t0 ; t0 ; t0 ; t0', 'd_pmr', ('corpus', 'pmr'), 'corpus')]
+    return [Case('pmr 1 2 i 1 s ; t0 ; t0 ; t0 ; t1 ; t1 ; t2 ; t2 ; t2 ; t2 ; t2 ; t2 ; t2 ; t0 ; t0 ; t0 ; t0', 'd_pmr', ('corpus', 'pmr'), 'corpus'),
+            # D82: Shutdown requested from two threads at once (both used to join the worker)
+            Case('pmr 0 1 1 2 sS', 'd_pmr', ('corpus', 'D82-concurrent-shutdown'), 'corpus'),
+            Case('pmr 1 1 i 2 s ; t0 ; t0 ; t0 ; t3 ; t3 ; t4 ; t4 ; t3 ; t4 ; t3 ; t4 ; t0 ; t0', 'd_pmr', ('corpus', 'D82-concurrent-shutdown'), 'corpus')]
 
 
 def history(case_line, out):
